@@ -29,3 +29,5 @@ def run(rep):
     lr.rule_scanner(rep, "C05.line", "C05.verbatim")
     lr.rule_line_basics(rep, "C05.trimmed")
     mr.rule_match_result(rep, "C05.result")
+    # no hidden state: what the property promises for one use must hold for every later use as well
+    ms.rule_stateless(rep, "C05")
